@@ -387,6 +387,8 @@ def _sym(e: ast.AST, env: Env) -> Poly:
             fname = e.func.id
         if fname in TRANSPARENT_CALLS and len(e.args) == 2:
             return _sym(e.args[1], env)
+        if fname == "list" and not e.args and not e.keywords:
+            return _atom("[]")             # list()  ==  []
         if env.resolver is not None and env.inline_depth < 2:
             r = env.resolver(e)
             if r is not None:
@@ -668,6 +670,13 @@ def forward(fn_node: ast.AST, base: Optional[Env] = None, init: Optional[Dict[st
                 kill(env, (_assigned_names(st.body) | _assigned_names([st.target])) - {acc})
                 env.values[acc] = comp
                 env.seq.add(acc)
+            elif isinstance(st, (ast.For, ast.AsyncFor)) and _fold_accumulator(st, env) is not None:
+                acc, folded = _fold_accumulator(st, env)
+                loop_env = env.copy()
+                kill(loop_env, _assigned_names(st.body) | _assigned_names([st.target]))
+                run(st.body, loop_env)
+                kill(env, (_assigned_names(st.body) | _assigned_names([st.target])) - {acc})
+                env.values[acc] = folded
             elif isinstance(st, (ast.For, ast.AsyncFor, ast.While)):
                 names = _assigned_names(st.body) | (_assigned_names([st.target]) if hasattr(st, "target") else set())
                 loop_env = env.copy()
@@ -760,6 +769,42 @@ def _accumulator(st: ast.For, env: Env):
     if flat:
         txt = "flatten(%s)" % txt
     return acc, Poly.atom(txt)
+
+
+def _fold_accumulator(st: ast.For, env: Env):
+    """for T in XS: [if C:] acc = acc + E  (or acc += E)  with acc holding a known value  ->  (acc, normal form of
+    reduce(lambda acc, T: acc + E if C else acc, XS, <initial value>)): the explicit loop and the fold have one normal form"""
+    if st.orelse or len(st.body) != 1 or not isinstance(st.target, ast.Name):
+        return None
+    inner = st.body[0]
+    conds = []
+    while isinstance(inner, ast.If) and not inner.orelse and len(inner.body) == 1:
+        conds.append(inner.test)
+        inner = inner.body[0]
+    acc, step = None, None
+    if isinstance(inner, ast.AugAssign) and isinstance(inner.op, ast.Add) and isinstance(inner.target, ast.Name) and not isinstance(inner.value, ast.List):
+        acc, step = inner.target.id, inner.value
+    elif isinstance(inner, ast.Assign) and len(inner.targets) == 1 and isinstance(inner.targets[0], ast.Name) and isinstance(inner.value, ast.BinOp) and isinstance(inner.value.op, ast.Add):
+        a = inner.targets[0].id
+        if isinstance(inner.value.left, ast.Name) and inner.value.left.id == a:
+            acc, step = a, inner.value.right
+        elif isinstance(inner.value.right, ast.Name) and inner.value.right.id == a:
+            acc, step = a, inner.value.left
+    if acc is None or acc not in env.values or acc == st.target.id:
+        return None
+    init = env.values[acc]
+    if init.const_value() is None:
+        return None            # only folds that start from a literal number (sums, counts)
+    if any(isinstance(n, ast.Name) and n.id == acc for n in ast.walk(step)) or any(isinstance(n, ast.Name) and n.id == acc for c in conds for n in ast.walk(c)):
+        return None
+    body: ast.AST = ast.BinOp(left=ast.Name(id=acc, ctx=ast.Load()), op=ast.Add(), right=step)
+    if conds:
+        test = conds[0] if len(conds) == 1 else ast.BoolOp(op=ast.And(), values=conds)
+        body = ast.IfExp(test=test, body=body, orelse=ast.Name(id=acc, ctx=ast.Load()))
+    lam = ast.Lambda(args=ast.arguments(posonlyargs=[], args=[ast.arg(arg=acc), ast.arg(arg=st.target.id)], kwonlyargs=[], kw_defaults=[], defaults=[]), body=body)
+    call = ast.Call(func=ast.Name(id="reduce", ctx=ast.Load()), args=[lam, st.iter, ast.Constant(value=init.const_value())], keywords=[])
+    ast.fix_missing_locations(call)
+    return acc, _sym(call, env)
 
 
 def sym_at(snaps: Dict[int, Env], stmt: ast.stmt, e: ast.AST) -> Poly:
